@@ -149,6 +149,8 @@ func (o Op) Sym() string {
 		return fmt.Sprintf("%d readdirplus %s %d %d %d", o.Id, o.H, o.Cookie, o.Dircount, o.Maxcount)
 	case "enum":
 		return fmt.Sprintf("%d enum %s %d %d %d %d %d", o.Id, o.H, o.Mode, o.Count, o.Dircount, o.Maxcount, o.Stable)
+	case "mount":
+		return fmt.Sprintf("%d mount %d x%s", o.Id, o.Mode, n(o.Name))
 	}
 	// mknod link fsstat null restart crash unstable:<0|1> sync
 	return fmt.Sprintf("%d %s", o.Id, o.Proc)
@@ -192,6 +194,9 @@ func ParseOp(line string) (Op, error) {
 	case "lookup", "mkdir", "remove", "rmdir":
 		o.H = s(2)
 		o.Name = nm(3)
+	case "mount":
+		o.Mode = uint32(u(2))
+		o.Name = string(unhex(strings.TrimPrefix(s(3), "x")))
 	case "create":
 		o.H = s(2)
 		o.Name = nm(3)
